@@ -670,7 +670,14 @@ def _thread_is_alive(self):
     ts = getattr(self, '_detsched_ts', None)
     if ts is None:
         return _orig['is_alive'](self)
-    return ts.status != DONE
+    v = ts.status != DONE
+    # a scheduling point right after the (lock-free) read, so that `if not t.is_alive(): ...` can race with the thread's exit
+    s = _SCHED
+    if s is not None and not s.finished:
+        me = s.threads.get(_get_ident())
+        if me is not None and not me.passthrough:
+            s.yield_point(me, 'is_alive', ts)
+    return v
 
 
 def _v_sleep(secs):
